@@ -59,8 +59,25 @@ fn main() {
             writeln!(ora, "property=C18 HostTypeResolver reports {}/{} for {}, the compiler says {}/{}", host.size, host.align, src, size, align).unwrap();
         }
         // rustc probe: the recorded name, written into code, denotes the same type
-        writeln!(probe, "const _: fn({}) -> {} = |x| x;", src.replace("crate::", "crate::verif_harness::"), host.name.replace("verif_harness ::", "crate :: verif_harness ::")).unwrap();
+        // (`*mut T` is invariant in `T`: the two spellings must denote the same type, a mere subtype or coercion does not pass)
+        writeln!(probe, "const _: fn(*mut {}) -> *mut {} = |x| x;", src.replace("crate::", "crate::verif_harness::"), host.name.replace("verif_harness ::", "crate :: verif_harness ::")).unwrap();
     });
+    // types outside the grammar of the Lean model (function pointers, references, lifetimes): no model tie for these,
+    // the compiler alone says whether the recorded name still denotes the declared type
+    macro_rules! extra { ($($t:ty),* $(,)?) => { $( {
+        use truc::record::type_resolver::HostTypeResolver;
+        n += 1;
+        match catch(|| HostTypeResolver.type_info::<$t>()) {
+            Ok(info) => writeln!(probe, "const _: fn(*mut {}) -> *mut {} = |x| x;", stringify!($t), info.name).unwrap(),
+            Err(m) => writeln!(ora, "property=C17 HostTypeResolver panics on {}: {}", stringify!($t), m).unwrap(),
+        }
+    } )* } }
+    extra!(fn(u32) -> u32, fn(&str) -> usize, fn(&str) -> &str, Option<fn(&mut Vec<String>, &str)>, [fn(&u8); 2], (u8, fn(&u8)),
+           &'static str, &'static [u8], Option<&'static str>, fn() -> String, unsafe fn(*const u8) -> u8, extern "C" fn(i32) -> i32,
+           *const u8, *mut [u16; 3], Box<fn(&str) -> usize>, Vec<Option<fn(&str) -> &str>>, Result<fn(&u8), &'static str>);
+    // (only Rust's primitive types -- function pointers, references, raw pointers, `str` -- under the constructors C17 lists;
+    //  trait objects, `Cow`, ... are outside the property: `Box<dyn Fn(&str)>` is recorded with the private path
+    //  `core::ops::function::Fn` on the unchanged tree, which C17 does not promise to avoid)
     writeln!(probe, "fn main() {{}}").unwrap();
     // a malformed stream
     for s in ["", "Vec<", "u8,", "(u8", "[u8; ]", "Vec<<u8>>", "a b"] {
